@@ -300,6 +300,23 @@ def relation_new(model, R):
             want = (xname, xmem) if s.targets[0].id == 'X' else (yname, ymem)
             got = tuple(src(a) for a in s.value.args[:2])
             R.check(got == want, 'WIRING', f, s, f'{s.targets[0].id} is the bit-set class of its own name and members', str(want), str(got))
+            # the closures are installed on the bit-set *class* (self.BitSet.prime = ...): the class must belong to this relation alone
+            callee = chain(s.value.func)
+            fresh = callee in (['bitsets', 'bitset'], ['bitsets', 'meta', 'bitset'])
+            if fresh:
+                R.ok('WIRING', f, s, f'{s.targets[0].id} is a class created for this relation')
+            else:
+                target = f.module.funcs.get(callee[0]) if callee and len(callee) == 1 else None
+                cached = target is not None and any((chain(d.func if isinstance(d, ast.Call) else d) or [''])[-1] in ('lru_cache', 'cache', 'cached')
+                                                    for d in target.node.decorator_list)
+                if cached or target is None:
+                    R.bad('WIRING', f, s, f'{s.targets[0].id} is a class created for this relation',
+                          'a direct call of the bitsets class factory (one new class per relation)',
+                          f'{src(s.value.func)}(...)' + (' is memoised' if cached else ''),
+                          extra={'consequence': 'the derivation closures are stored on the class: sharing it between contexts with equal labels '
+                                                'rebinds the closures of the earlier context to the later table'})
+                else:
+                    R.unknown('WIRING', f, s, f'{s.targets[0].id} is a class created for this relation', f'factory {src(s.value.func)}')
     env = Env(f)
     xs = [s for s in f.body if isinstance(s, ast.Assign) and name_is(s.targets[0], 'x')]
     ys = [s for s in f.body if isinstance(s, ast.Assign) and name_is(s.targets[0], 'y')]
